@@ -256,7 +256,7 @@ func (c *Ctx) finish(verifDir string, start time.Time, seed int, spec *PropSpec,
 		"callgraph":             c.P.cgMode,
 		"repo":                  c.P.Repo,
 		"exhaustive":            true,
-		"notes":                 c.Notes,
+		"notes":                 append(append([]string{}, c.Notes...), aliasNotes...),
 		"not_decided":           spec.NotDecided,
 	}
 	for k, v := range extra {
